@@ -68,16 +68,11 @@ struct GjkrProto : Proto {
 			views.push_back(v);
 		}
 		judge_joint(*W, "gjkr", views, cfg.t, false);
-		// diagnosis -> specific finding key: Reconstruct refused because more than t parties were named in step 4(c)
-		for (size_t k = 0; k < W->viols.size(); k++)
-			if (W->viols[k].key == "gjkr/honest-failed")
-				for (size_t a = 0; a < views.size(); a++)
-					if (!views[a].ret && W->logs[views[a].party].find("too many faulty parties") != std::string::npos)
-					{
-						W->viols[k].key = "gjkr/extraction-complaint-dos";
-						W->viols[k].what += "; cause: the extraction phase named more than t parties (a complaint in step 4 is counted against the accused without being verified)";
-						break;
-					}
+		// counted, not alarmed (no liveness clause in the property): every honest party gave up because the extraction
+		// phase named more than t parties — see findings/obs_obs_c15_gjkr_extraction_complaint_dos.cc
+		if (W->notes.count("gjkr.all_honest_failed"))
+			for (size_t a = 0; a < views.size(); a++)
+				if (W->logs[views[a].party].find("too many faulty parties") != std::string::npos) { W->notes["gjkr.extraction_complaint_dos"]++; break; }
 		// the library's own key check must agree
 		for (size_t a = 0; a < views.size(); a++)
 			if (views[a].ret && !d[views[a].party]->CheckKey())
@@ -188,15 +183,15 @@ struct CdkgProto : Proto {
 	{
 		if (ph == 0) view_of(i, snap[i], 0), snap_qual[i] = d[i]->QUAL;
 	}
-	void dkg_qual(const std::string &tag, const std::vector<int> &H, const std::vector<std::vector<size_t> > &q)
+	void dkg_qual(const std::string &tag, const std::vector<int> &H, const std::vector<std::vector<size_t> > &q, int ph)
 	{
+		int first = -1;
 		for (size_t a = 0; a < H.size(); a++)
 		{
-			if (q[H[a]] != q[H[0]])
-				W->viol(tag + "/qual-disagree", "honest parties " + str(H[0]) + " and " + str(H[a]) + " hold different QUAL: " + set_str(q[H[0]]) + " vs " + set_str(q[H[a]]));
-			for (size_t b = 0; b < H.size(); b++)
-				if (std::find(q[H[a]].begin(), q[H[a]].end(), (size_t)H[b]) == q[H[a]].end())
-					W->viol(tag + "/honest-disqualified", "honest party " + str(H[b]) + " is not in QUAL " + set_str(q[H[a]]) + " of honest party " + str(H[a]));
+			if (W->ps[H[a]].ret[ph] != 1) continue;
+			if (first < 0) first = H[a];
+			if (q[H[a]] != q[first])
+				W->viol(tag + "/qual-disagree", "honest parties " + str(first) + " and " + str(H[a]) + " hold different QUAL: " + set_str(q[first]) + " vs " + set_str(q[H[a]]));
 		}
 	}
 	void judge() override
@@ -214,25 +209,64 @@ struct CdkgProto : Proto {
 			q1[H[a]] = d[H[a]]->QUAL;
 		}
 		JResult r0 = judge_joint(*W, "cdkg.gen", v0, cfg.t, false);
-		dkg_qual("cdkg.gen", H, snap_qual);
+		dkg_qual("cdkg.gen", H, snap_qual, 0);
 		JResult r1 = judge_joint(*W, "cdkg.refresh", v1, cfg.t, false);
-		dkg_qual("cdkg.refresh", H, q1);
+		dkg_qual("cdkg.refresh", H, q1, 1);
 		for (size_t a = 0; a < H.size(); a++)
 		{
+			if (!v0[a].ret || !v1[a].ret) continue;
 			if (v0[a].y != v1[a].y)
 				W->viol("cdkg.refresh/key-changed", "public key of honest party " + str(H[a]) + " changed during Refresh");
-			if (cfg.t >= 1 && v0[a].ret && v1[a].ret && v0[a].x == v1[a].x)
+			if (cfg.t >= 1 && v0[a].x == v1[a].x)
 				W->viol("cdkg.refresh/share-unchanged", "share x_i of honest party " + str(H[a]) + " is the same before and after Refresh");
 		}
 		if (r0.have_x && r1.have_x && r0.x != r1.x)
 			W->viol("cdkg.refresh/secret-changed", "the honest shares interpolate to " + r0.x.s() + " before and " + r1.x.s() + " after Refresh");
-		// diagnosis -> specific finding keys
+		// diagnosis -> the two known root causes get their own finding keys, and ONLY they:
+		//  erased       at a successful honest party the final QUAL of Generate is a proper subset of x_rvss->QUAL
+		//  requalified  at a successful honest party QUAL after Refresh (= QUAL of the zero sharing) contains a party
+		//               outside x_rvss->QUAL; where the old commitments of such a party are invertible the harness
+		//               also confirms that adding its zero-sharing commitments C_new/C_old repairs the relation
 		bool erased = false, requalified = false, gen_key_bad = false;
 		for (size_t a = 0; a < H.size(); a++)
 		{
-			if (snap_qual[H[a]] != v0[a].qual) erased = true;
+			if (v0[a].ret && snap_qual[H[a]] != v0[a].qual)
+			{
+				bool subset = true;
+				for (size_t k = 0; k < snap_qual[H[a]].size(); k++)
+					if (std::find(v0[a].qual.begin(), v0[a].qual.end(), snap_qual[H[a]][k]) == v0[a].qual.end()) subset = false;
+				if (subset && snap_qual[H[a]].size() < v0[a].qual.size()) erased = true;
+			}
+			if (!v1[a].ret) continue;
+			std::vector<size_t> extra;
 			for (size_t k = 0; k < q1[H[a]].size(); k++)
-				if (std::find(v1[a].qual.begin(), v1[a].qual.end(), q1[H[a]][k]) == v1[a].qual.end()) requalified = true;
+				if (std::find(v1[a].qual.begin(), v1[a].qual.end(), q1[H[a]][k]) == v1[a].qual.end()) extra.push_back(q1[H[a]][k]);
+			if (extra.empty()) continue;
+			bool confirmable = true, repaired = false;
+			Mpz lhs, rhs, e, inv;
+			commit(lhs, G, v1[a].x, v1[a].xp);
+			mpz_set_ui(rhs, 1);
+			for (size_t qi = 0; qi < v1[a].qual.size(); qi++)
+			{
+				eval_commitments(e, G, v1[a].C[v1[a].qual[qi]], H[a]);
+				mpz_mul(rhs, rhs, e), mpz_mod(rhs, rhs, G.p);
+			}
+			for (size_t x = 0; x < extra.size() && confirmable; x++)
+			{
+				std::vector<Mpz> cz;
+				for (size_t k = 0; k < v1[a].C[extra[x]].size(); k++)
+				{
+					if (!mpz_invert(inv, v0[a].C[extra[x]][k], G.p)) { confirmable = false; break; }
+					Mpz z;
+					mpz_mul(z, v1[a].C[extra[x]][k], inv), mpz_mod(z, z, G.p);
+					cz.push_back(z);
+				}
+				if (!confirmable) break;
+				eval_commitments(e, G, cz, H[a]);
+				mpz_mul(rhs, rhs, e), mpz_mod(rhs, rhs, G.p);
+			}
+			if (confirmable) repaired = !mpz_cmp(lhs, rhs);
+			if (!confirmable || repaired) requalified = true;
 		}
 		std::vector<Viol> keep;
 		for (size_t k = 0; k < W->viols.size(); k++)
@@ -305,68 +339,62 @@ struct PvssProto : Proto {
 		std::vector<int> H = W->honest_list();
 		const int dl = cfg.dealer;
 		if (H.empty()) return;
-		bool dealer_honest = W->honest(dl);
-		bool all_accept = true, any_accept = false;
+		const bool dealer_honest = W->honest(dl);
+		// judged are the honest parties for which the sharing succeeded (see judge_joint)
+		std::vector<int> Sx;
+		std::string acc;
 		for (size_t a = 0; a < H.size(); a++)
 		{
-			bool acc = W->ps[H[a]].ret[0] == 1;
-			all_accept = all_accept && acc, any_accept = any_accept || acc;
-		}
-		if (dealer_honest && !all_accept)
-		{
-			std::string who;
-			for (size_t a = 0; a < H.size(); a++) if (W->ps[H[a]].ret[0] != 1) who += " " + str(H[a]);
-			W->viol("pvss/honest-dealer-rejected", "sharing of the honest dealer " + str(dl) + " failed at honest parties" + who);
-			return;
+			if (W->ps[H[a]].ret[0] == 1) Sx.push_back(H[a]);
+			acc += str(H[a]) + (W->ps[H[a]].ret[0] == 1 ? ":accept " : ":reject ");
 		}
 		// diagnosis helper: honest parties that complained about the dealer themselves
 		std::set<int> complainers;
 		for (size_t a = 0; a < H.size(); a++)
 			if (W->logs[H[a]].find("broadcast complaint against dealer") != std::string::npos) complainers.insert(H[a]);
-		if (!dealer_honest && all_accept != any_accept)
+		if (Sx.empty())
 		{
-			std::string acc;
-			bool only_complainers_accept = true;
-			for (size_t a = 0; a < H.size(); a++)
-			{
-				acc += str(H[a]) + (W->ps[H[a]].ret[0] == 1 ? ":accept " : ":reject ");
-				if (W->ps[H[a]].ret[0] == 1 && !complainers.count(H[a])) only_complainers_accept = false;
-			}
-			if (only_complainers_accept)
-				W->viol("pvss/complainer-skips-resolution", "honest parties disagree on the faulty dealer " + str(dl) + ": " + acc + "; the accepting parties are those that complained themselves: they do not read the dealer's public answer to their own complaint");
-			else
-				W->viol("pvss/accept-disagree", "honest parties disagree on the faulty dealer " + str(dl) + ": " + acc);
+			W->notes[dealer_honest ? "pvss.honest_dealer_rejected_by_all" : "pvss.faulty_dealer_rejected"]++;
 			return;
 		}
-		if (!all_accept) return;     // the faulty dealer is disqualified by everybody
-		// commitments
-		std::vector<Mpz> A = copy_row(d[H[0]]->A_j);
-		for (size_t a = 1; a < H.size(); a++)
+		if (Sx.size() != H.size())
 		{
-			std::vector<Mpz> B = copy_row(d[H[a]]->A_j);
+			bool only_complainers_accept = true;
+			for (size_t a = 0; a < Sx.size(); a++) if (!complainers.count(Sx[a])) only_complainers_accept = false;
+			if (!dealer_honest && only_complainers_accept)
+				W->viol("pvss/complainer-skips-resolution", "honest parties disagree on the faulty dealer " + str(dl) + ": " + acc + "; the accepting parties are those that complained themselves: they do not read the dealer's public answer to their own complaint");
+			else
+				W->viol("pvss/honest-outcomes-differ", std::string("honest parties disagree whether the sharing of the ") + (dealer_honest ? "honest" : "faulty") + " dealer " + str(dl) + " succeeded: " + acc);
+			return;
+		}
+		// commitments
+		std::vector<Mpz> A = copy_row(d[Sx[0]]->A_j);
+		for (size_t a = 1; a < Sx.size(); a++)
+		{
+			std::vector<Mpz> B = copy_row(d[Sx[a]]->A_j);
 			for (size_t k = 0; k < A.size(); k++)
-				if (A[k] != B[k]) W->viol("pvss/commitments-disagree", "A_" + str(k) + " differs between honest parties " + str(H[0]) + " and " + str(H[a]));
+				if (A[k] != B[k]) W->viol("pvss/commitments-disagree", "A_" + str(k) + " differs between honest parties " + str(Sx[0]) + " and " + str(Sx[a]));
 		}
 		Mpz lhs, rhs;
 		std::vector<Mpz> sh, shp;
 		bool bad_share = false;
-		for (size_t a = 0; a < H.size(); a++)
+		for (size_t a = 0; a < Sx.size(); a++)
 		{
-			sh.push_back(Mpz(d[H[a]]->sigma_i)), shp.push_back(Mpz(d[H[a]]->tau_i));
+			sh.push_back(Mpz(d[Sx[a]]->sigma_i)), shp.push_back(Mpz(d[Sx[a]]->tau_i));
 			mpz_mod(sh[a], sh[a], G.q), mpz_mod(shp[a], shp[a], G.q);
 			commit(lhs, G, sh[a], shp[a]);
-			eval_commitments(rhs, G, A, H[a]);
+			eval_commitments(rhs, G, A, Sx[a]);
 			if (mpz_cmp(lhs, rhs))
 			{
-				if (complainers.count(H[a]))
-					W->viol("pvss/complainer-skips-resolution", "honest party " + str(H[a]) + " complained about its share, the dealer " + str(dl) + " published a valid one and was accepted by everybody, but the complainer never reads that answer: it keeps the invalid share (g^sigma_i h^tau_i != prod_k A_k^{(i+1)^k}) and returns true");
+				if (complainers.count(Sx[a]))
+					W->viol("pvss/complainer-skips-resolution", "honest party " + str(Sx[a]) + " complained about its share, the dealer " + str(dl) + " published a valid one and was accepted by everybody, but the complainer never reads that answer: it keeps the invalid share (g^sigma_i h^tau_i != prod_k A_k^{(i+1)^k}) and returns true");
 				else
-					W->viol("pvss/share-vs-commitments", "g^sigma_i h^tau_i of honest party " + str(H[a]) + " differs from prod_k A_k^{(i+1)^k} although the dealer " + str(dl) + " was accepted");
+					W->viol("pvss/share-vs-commitments", "g^sigma_i h^tau_i of honest party " + str(Sx[a]) + " differs from prod_k A_k^{(i+1)^k} although the dealer " + str(dl) + " was accepted");
 				bad_share = true;
 			}
 		}
 		if (bad_share) return;
-		const size_t m = H.size();
+		const size_t m = Sx.size();
 		if ((int)m < cfg.t + 1) return;
 		bool first = true;
 		Mpz x0, xp0, x, xp;
@@ -375,7 +403,7 @@ struct PvssProto : Proto {
 			if (__builtin_popcount(mask) != cfg.t + 1) continue;
 			std::vector<int> idx;
 			std::vector<const Mpz *> vx, vxp;
-			for (size_t a = 0; a < m; a++) if (mask & (1u << a)) idx.push_back(H[a]), vx.push_back(&sh[a]), vxp.push_back(&shp[a]);
+			for (size_t a = 0; a < m; a++) if (mask & (1u << a)) idx.push_back(Sx[a]), vx.push_back(&sh[a]), vxp.push_back(&shp[a]);
 			lagrange0(x, idx, vx, G.q), lagrange0(xp, idx, vxp, G.q);
 			if (first) x0 = x, xp0 = xp, first = false;
 			else if (x != x0 || xp != xp0)
@@ -391,18 +419,30 @@ struct PvssProto : Proto {
 			W->viol("pvss/secret-vs-commitments", "the secret interpolated from the honest shares does not open A_0");
 		if (dealer_honest && x0 != sigma)
 			W->viol("pvss/secret-not-dealers", "honest shares interpolate to " + x0.s() + " but the honest dealer shared " + sigma.s());
+		// reconstruction: whoever obtains a value obtains THE value; all or none obtain one
+		size_t rec_ok = 0;
+		bool zero_share = false;
+		std::string racc;
 		for (size_t a = 0; a < m; a++)
 		{
-			int i = H[a];
+			int i = Sx[a];
+			racc += str(i) + (W->ps[i].ret[1] == 1 ? ":ok " : ":fail ");
 			if (W->ps[i].ret[1] != 1)
 			{
-				bool zero_share = !mpz_sgn(d[i]->sigma_i) || !mpz_sgn(d[i]->tau_i);
-				W->viol(zero_share ? "pvss/reconstruct-zero-share" : "pvss/reconstruct-failed",
-					"Reconstruct failed at honest party " + str(i) + (zero_share ? " whose valid share (sigma_i,tau_i) has a zero component" : ""));
+				if (!mpz_sgn(d[i]->sigma_i) || !mpz_sgn(d[i]->tau_i)) zero_share = true;
+				continue;
 			}
-			else if (i != dl && out[i] != x0)
+			rec_ok++;
+			if (i != dl && out[i] != x0)
 				W->viol("pvss/reconstruct-wrong", "Reconstruct returned " + out[i].s() + " at honest party " + str(i) + ", the honest shares interpolate to " + x0.s());
 		}
+		if (rec_ok == m) return;
+		if (zero_share)
+			W->viol("pvss/reconstruct-zero-share", "Reconstruct fails (" + racc + ") because a VALID share has a zero component: sigma_i = 0 or tau_i = 0 is taken for 'no share stored' (secret " + sigma.s() + ", t=" + str(cfg.t) + ")");
+		else if (rec_ok > 0)
+			W->viol("pvss/reconstruct-outcomes-differ", "Reconstruct succeeded at some honest parties and failed at others: " + racc);
+		else
+			W->notes["pvss.reconstruct_failed_at_all"]++;
 	}
 };
 
@@ -569,6 +609,7 @@ static void finish_case(World &W, Proto &P, bool reference)
 	P.judge();
 	for (size_t i = 0; i < W.viols.size(); i++)
 		R->viol(W.viols[i].key, W.viols[i].what + " [" + id + " seed=" + str(seed_of(W.cfg)) + " |p|=" + str(G.psize) + " |q|=" + str(G.qsize) + "]", id);
+	for (std::map<std::string, int>::iterator it = W.notes.begin(); it != W.notes.end(); ++it) R->counters["note." + it->first] += it->second;
 	bool effective = true;
 	for (int i = 0; i < W.cfg.n; i++)
 		if (W.ps[i].faulty && !W.ps[i].fired && !(W.ps[i].dev.kind == 'B' && sim_always_deviates(W.cfg.proto))) effective = false;
